@@ -30,6 +30,17 @@ ATOMS = {
     "paren": (lambda i: ["LeftParen", ("Int", 10 + i), "RightParen"], lambda i: "%d" % (10 + i), lambda i: "(%d)" % (10 + i)),
 }
 UNARY = ("neg", "not", "neg_call", "not_field")
+# the operand of a unary atom and the operator name, for the reading in which a unary operator takes the following run of * and / as its operand
+INNER = {"neg": (lambda i: "%d" % (10 + i), "neg"), "not": (lambda i: "p%d" % i, "not"), "neg_call": (lambda i: "call(f%d,[%d])" % (i, i), "neg"), "not_field": (lambda i: "field(b%d,y)" % i, "not")}
+
+
+def unary_reading():
+    """The statement orders unary operators against + -, comparisons and the boolean operators only; how they stand against * and / is read off the
+    implementation once (`-10 * 11`), and that one table is then required at EVERY position: 'tight' = (-10) * 11, 'loose' = -(10 * 11)."""
+    if "reading" not in _CTX:
+        sh = native_shape(("neg", "int"), ["Star"])
+        _CTX["reading"] = {"((neg 10) . 11)": "tight", "(neg (10 . 11))": "loose"}.get(sh, "unreadable: " + sh)
+    return _CTX["reading"]
 _CTX = {}
 
 
@@ -69,14 +80,23 @@ def shape_of(m, M, e):
     return ex(e)
 
 
-def spec_term(levels, atoms, lo, hi):
-    """z3 String term: the documented grouping of atoms lo..hi (binary operators lo..hi-1), left associative"""
-    if lo == hi: return z3.StringVal(atoms[lo])
+def spec_term(levels, atoms, lo, hi, cfg=None, loose=False, strip=False):
+    """z3 String term: the documented grouping of atoms lo..hi (binary operators lo..hi-1), left associative.
+    loose: a unary atom takes the maximal run of * and / that follows it as its operand (strip: the unary operator of atom lo is already accounted for)"""
+    un = lambda u: loose and cfg[u] in UNARY and not (u == lo and strip)
+    def leaf(i, stripped): return INNER[cfg[i]][0](i) if stripped else atoms[i]
+    if lo == hi: return z3.StringVal(leaf(lo, strip))
+    def captured(r):
+        alts = [z3.And([levels[j] == 5 for j in range(u, r + 1)]) for u in range(lo, r + 1) if un(u)]
+        return z3.Or(alts) if alts else z3.BoolVal(False)
     term = None
-    for r in range(hi - 1, lo - 1, -1):          # the root is the LAST operator of minimal level
-        cond = z3.And([levels[r] < levels[j] for j in range(lo, hi) if j > r] + [levels[r] <= levels[j] for j in range(lo, hi) if j < r])
-        t = z3.Concat(z3.StringVal("("), spec_term(levels, atoms, lo, r), z3.StringVal(" . "), spec_term(levels, atoms, r + 1, hi), z3.StringVal(")"))
+    for r in range(hi - 1, lo - 1, -1):          # the root is the LAST operator of minimal level that no unary operator has taken
+        cond = z3.And([z3.Not(captured(r))] + [z3.Or(captured(j), levels[r] < levels[j]) for j in range(lo, hi) if j > r] + [z3.Or(captured(j), levels[r] <= levels[j]) for j in range(lo, hi) if j < r])
+        t = z3.Concat(z3.StringVal("("), spec_term(levels, atoms, lo, r, cfg, loose, strip), z3.StringVal(" . "), spec_term(levels, atoms, r + 1, hi, cfg, loose, False), z3.StringVal(")"))
         term = t if term is None else z3.If(cond, t, term)
+    if un(lo):
+        whole = z3.Concat(z3.StringVal("(%s " % INNER[cfg[lo]][1]), spec_term(levels, atoms, lo, hi, cfg, loose, True), z3.StringVal(")"))
+        term = z3.If(z3.And([levels[j] == 5 for j in range(lo, hi)]), whole, term)
     return term
 
 
@@ -88,8 +108,7 @@ def work(cfg):
         ops = [z3.Int("op%d" % i) for i in range(n)]
         base = []
         for i, o in enumerate(ops):
-            dom = [x for x in OPS if not (cfg[i] in UNARY and x in ("Star", "Slash"))]       # unary vs * / is left open by the statement
-            base.append(z3.Or([o == T.index(x) for x in dom]))
+            base.append(z3.Or([o == T.index(x) for x in OPS]))
         def level(o):
             e = z3.IntVal(-1)
             for x in OPS: e = z3.If(o == T.index(x), LEVEL[x], e)
@@ -109,7 +128,7 @@ def work(cfg):
         res = m.explore("expression::expression", mk_ctx, base)
         atoms = [ATOMS[a][1](i) for i, a in enumerate(cfg)]
         L = [level(o) for o in ops]
-        spec = spec_term(L, atoms, 0, n)
+        spec = spec_term(L, atoms, 0, n, cfg, _CTX["reading"] == "loose")
         ntok = sum(len(ATOMS[a][0](i)) for i, a in enumerate(cfg)) + n
         bad = []; nq = 0; solver_s = 0.0; samples = []
         for pc, (kind, out) in res:
@@ -159,12 +178,17 @@ def native_shape(cfg, opnames):
 def expected_shape(cfg, opnames):
     atoms = [ATOMS[a][1](i) for i, a in enumerate(cfg)]
     lv = [LEVEL[o] for o in opnames]
-    def build(lo, hi):
-        if lo == hi: return atoms[lo]
+    loose = unary_reading() == "loose"
+    def build(lo, hi, strip=False):
+        un = lambda u: loose and cfg[u] in UNARY and not (u == lo and strip)
+        if lo == hi: return INNER[cfg[lo]][0](lo) if strip else atoms[lo]
+        if un(lo) and all(lv[j] == 5 for j in range(lo, hi)): return "(%s %s)" % (INNER[cfg[lo]][1], build(lo, hi, True))
+        captured = lambda r: any(un(u) and all(lv[j] == 5 for j in range(u, r + 1)) for u in range(lo, r + 1))
         best = None
         for r in range(lo, hi):
-            if best is None or lv[r] <= lv[best]: best = r          # last operator of minimal level
-        return "(%s . %s)" % (build(lo, best), build(best + 1, hi))
+            if captured(r): continue
+            if best is None or lv[r] <= lv[best]: best = r          # last free operator of minimal level
+        return "(%s . %s)" % (build(lo, best, strip), build(best + 1, hi))
     return build(0, len(cfg) - 1)
 
 
@@ -186,6 +210,8 @@ def run(tier):
     t0 = time.time()
     machine()
     cfgs = configs(tier)
+    if unary_reading() not in ("tight", "loose"):
+        print("INCONCLUSIVE property=C13 the probe `-10 * 11` parses to neither -(10 * 11) nor (-10) * 11: %s" % unary_reading()); return 2
     with mp.get_context("fork").Pool(16) as pool: results = pool.map(work, cfgs, chunksize=1)
     fnd = common.Findings("C13"); tot = {"paths": 0, "steps": 0, "queries": 0, "solver_s": 0.0}; samples = []; replayed = 0
     for r in results:
@@ -206,7 +232,7 @@ def run(tier):
     import random
     rnd = random.Random(common.seed()); val = 0
     for _ in range(12 if tier == "quick" else 60):
-        cfg = rnd.choice(cfgs); opn = [rnd.choice([o for o in OPS if not (cfg[i] in UNARY and o in ("Star", "Slash"))]) for i in range(len(cfg) - 1)]
+        cfg = rnd.choice(cfgs); opn = [rnd.choice(OPS) for i in range(len(cfg) - 1)]
         if native_shape(cfg, opn) != expected_shape(cfg, opn):
             src = source_of(cfg, opn)
             fnd.report("grouping:%s" % ",".join(sorted(set(cfg))), "`%s` should group as %s but the native parser yields %s" % (src, expected_shape(cfg, opn), native_shape(cfg, opn)), {"expr.sy": src + "\n"})
@@ -214,10 +240,10 @@ def run(tier):
     cov = {"states": max(1, tot["paths"]), "transitions": max(1, tot["queries"]), "traces_validated_against_impl": replayed + val, "samples": samples or [{"note": "nothing ran"}],
            "atom_configurations": len(cfgs), "mir_statements": tot["steps"], "solver_s": round(tot["solver_s"], 2),
            "functions_encoded": ["expression::expression", "parse_precedence", "prefix", "unary", "infix", "valid_infix", "precedence", "Prec::partial_cmp / next (derived)", "Context::{eat,token,peek,skip,span}", "assignable / sub_assignable / assignable_call / assignable_index / assignable_dot", "grouping_or_tuple", "value", "Expression::new"],
-           "bounds": {"binary_operators_per_expression": 2 if tier == "quick" else 3, "operator_domain": 13, "atom_kinds": len(ATOMS)}, "known_findings_seen": sorted(fnd.seen_known)}
+           "bounds": {"binary_operators_per_expression": 2 if tier == "quick" else 3, "operator_domain": 13, "atom_kinds": len(ATOMS)}, "unary_reading": unary_reading(), "known_findings_seen": sorted(fnd.seen_known)}
     rc = fnd.finish()
     common.write_evidence("C13", tier, "model_checking", cov, ["token vectors are built directly (the lexer is not part of this check); spans are synthetic",
-                          "an operator that directly follows a unary atom ranges over the 11 operators other than * and / (the statement leaves unary vs * / open)",
+                          "the statement leaves unary - / not against * and / open: the reading is taken from the implementation once (`-10 * 11`: tight = (-10) * 11, loose = -(10 * 11)) and that one table is required at every position; reading on this tree: " + unary_reading(),
                           "std models: slice::get, Option::unwrap_or, Clone, Try::branch, Box::new, PartialOrd via derived partial_cmp, Vec::push, format! opaque",
                           "'evaluates to the same value' is covered by C01's templates, whose reference reader has its own precedence table"], time.time() - t0, len(fnd.violations))
     print("C13: %d atom configurations, %d paths, %d queries, %d native re-parses, wall %.1fs" % (len(cfgs), tot["paths"], tot["queries"], replayed + val, time.time() - t0))
